@@ -12,528 +12,536 @@ Definition show_fres (r : fres) : string :=
   end.
 Definition check (rs : list rune) : string := digest (show_fres (format_res rs)).
 Definition full (rs : list rune) : string := show_fres (format_res rs).
-Eval vm_compute in ("<<<M1334>>>" ++ check (runes_of_ascii "// top
-options
-    // c0
-{ // c1
-LittleEndian // c2
-= false // c4
-; ArrayPrefixLenType =
-    // c7
-u8 ; FixedStringPadFromLeft // c10a
-  // c10b
-= // c11
-true // c12
-;
-    // c13
-FixedStringPadChar // c14
-= // c15
-'0' // c16
-; // c17
-}
-    // c18
-packet Heartbeat
-    // c20
-{ string // c22a
-  // c22b
-lastPx ,
-    // c24
-uint8 // c25a
-  // c25b
-Qty // c26a
-  // c26b
-,
-    // c27
-i64 Acct // c29
-, // c30a
-  // c30b
-char[ // c31
-4 // c32a
-  // c32b
-] Ref , // c35a
-  // c35b
-} // c36a
-  // c36b
-packet
-    // c37
-Fill // c38
-{ // c39a
-  // c39b
-uint8 // c40a
-  // c40b
-Ref , Heartbeat // c43
-, // c44a
-  // c44b
-f32 OrderId , // c47a
-  // c47b
-repeat f32 // c49
-x , // c51
-} root packet // c54a
-  // c54b
-Order // c55a
-  // c55b
-{ // c56a
-  // c56b
-zchar[ // c57a
-  // c57b
-2 // c58
-]
-    // c59
-OrderId // c60a
-  // c60b
-, zchar[
-    // c62
-2 // c63a
-  // c63b
-] // c64
-Acct // c65a
-  // c65b
-, zchar[ // c67
-1 // c68a
-  // c68b
-]
-    // c69
-Note // c70
-, // c71a
-  // c71b
-zchar[
-    // c72
-9 // c73
-] // c74a
-  // c74b
-Qty // c75a
-  // c75b
-, // c76
-string
-    // c77
-price ,
-    // c79
-string // c80
-tag7
-    // c81
-,
-    // c82
-u32 // c83
-x // c84
-,
-    // c85
-match // c86a
-  // c86b
-x // c87a
-  // c87b
-as
-    // c88
-Body {
-    // c90
-123 // c91
-: Fill
-    // c93
-, 112 // c95
-: Heartbeat // c97
-, } // c99a
-  // c99b
-, // c100a
-  // c100b
-u32 // c101a
-  // c101b
-seqNo // c102
-@calculatedFrom( // c103
-""CRC32"" // c104a
-  // c104b
-) // c105
-,
-    // c106
-} // c107a
-  // c107b
-")).
-Eval vm_compute in ("<<<M1478>>>" ++ check (runes_of_ascii "options {
-    StringPrefixLenType = u16;// c5a
-    // c5b
-    ArrayPrefixLenType = u32;
-    // c9
-    FixedStringPadFromLeft = true;// c13
-    FixedStringPadChar = '0';// c17
-}// c18
-
-packet Cancel {
-}
-
-packet Party {
-}
-
-// c26
-packet Logon {
-}
-
-packet Ack {
-}
-
-// c34
-packet Logout {
-    repeat InSym87 {
-        InClordid94 {
-            // c42
-            string clOrdID,// c45a
-        },
-        // c47
-        string Px,
-        // c50
-        i16 Qty,
-        // c53
-        repeat InCount71 {
-            // c56
-            repeat Cancel,
-            // c59
-            uint16 Tail,
-            // c62
-            char[2] x,
-            // c67
-            repeat string Ref,
-        },
-        // c73
-        Cancel,// c75a
-    },// c77
-}
-
-// c78
-root packet Order {
-    repeat string tag7,
-    @leftPad(' ')
-    // c90a
-    // c90b
-    char[3] Px,
-    // c95
-    u8 Qty,
-    // c98
-    match Qty as Body {
-        // c103
-        [28, 62] : Logon,
-        148 : Ack,
-        // c115
-        88 : Party,
-        184 : Cancel,
-        // c123a
-    },// c125
-    u16 Note @calculatedFrom(""CRC32""),
-}// c132")).
-Eval vm_compute in ("<<<M316>>>" ++ check (runes_of_ascii "// `tick` ""quote"" 'q'
-packet crc { @tag(0 ) //x
-chars , i8i8
-@lengthOf( packetx ), repeat
-f32a
-    {
-match packetx as a1{
-    ""x y""
-:
-//
-// `tick` ""quote"" 'q'
-Packet, } ,}
-, @leftPad(
-'\x00' )
-uint8 int ,
-match float as a1 {
-    // `tick` ""quote"" 'q'
-    [4294967296
-    ]
-:// " ++ [27880; 37322]%N ++ runes_of_ascii "
-Packet
-    , } //
-, repeat zchar[ 007 ] zchar`tab	here`
-    , repeat
-// " ++ [27880; 37322]%N ++ runes_of_ascii "
-// a // b
-x
-    , }	packet
-string_
-    // c
-    { char[
-0123456789] a1
-, @calculatedFrom( ""a\\"" ) @tag( 42)
-@leftPad
-('\x00' ) options1
-    @calculatedFrom( """ ++ [28040; 24687]%N ++ runes_of_ascii """
-)`it's`	, repeat
-rootA// packet A { u8 x, }
-{
-    //
-    match Logon as Packet { [10 ,	255 , 0,
-007 ,
-""CRC32""
-, ""abc"" ] : len , """ ++ [28040; 24687]%N ++ runes_of_ascii """:	a1	, } , match leftPad as Header { 007:  As
-, 255: repeatCount , /// triple
-"""" // packet A { u8 x, }
-: matchKey //
-, [ 255 ,
-    3,	""abc"" , """", ""\n"" , 1
-, """"// " ++ [27880; 37322]%N ++ runes_of_ascii "
-,
-42//x
-] : pack ,
-}
-, }
-// @lengthOf(
-// `tick` ""quote"" 'q'
-, int
-{int64 chars , }// @lengthOf(
-, } 	 ")).
-Eval vm_compute in ("<<<M28>>>" ++ check (runes_of_ascii "options
-    { string_
-= false
-    ; falsey  = char[// " ++ [128512]%N ++ runes_of_ascii " emoji
-4294967296 ] ; } packet
-    zchar{match float as len { [ """ ++ [233]%N ++ runes_of_ascii "t" ++ [233]%N ++ runes_of_ascii """ ]:
-matchKey
-    , 3 : // " ++ [27880; 37322]%N ++ runes_of_ascii "
-u [ 4294967296
-, ""1"" ] :
-// `tick` ""quote"" 'q'
-// c
-zchar , } // c
-,} MetaData
-    // @lengthOf(
-    T {
-// c
-// a // b
-}	packet packetx  { uint16 uint8x @calculatedFrom( ""it's"" ) ,
-stringy { i16 crc
-`{ , }`	, }
-, zchar[ 00
-] x
-,
-    zchar{ uint64 tag , zchar
-f32a	`say ""hi""` , uint32 A `{ , }` , match _x as
-falsey
-{ [ 007// " ++ [128512]%N ++ runes_of_ascii " emoji
-,
-    """ ++ [128512]%N ++ runes_of_ascii """] :
-    matchKey// " ++ [128512]%N ++ runes_of_ascii " emoji
-[ 0123456789,3 ] : T
-// " ++ [128512]%N ++ runes_of_ascii " emoji
-// `tick` ""quote"" 'q'
-1: Foo ,
-}
-    ,// trailing space 
-} ,A ,
-    zchar[
-    // packet A { u8 x, }
-    4294967296 ] string_ @lengthOf( float ) ,match rootA as As
-    { [ ""it's"",
-255 , 0123456789 ,
-// packet A { u8 x, }
-//	t
-""" ++ [233]%N ++ runes_of_ascii "t" ++ [233]%N ++ runes_of_ascii """	, ""{,}"" ,	""abc""
-    , """ ++ [233]%N ++ runes_of_ascii "t" ++ [233]%N ++ runes_of_ascii """]:int, 4294967296 : tag , } , }
-")).
-Eval vm_compute in ("<<<M1423>>>" ++ check (runes_of_ascii "  options
-{
-
-    Header  = u32 ; }
-
-options	{ i8i8
-
-    = f64 ; 
-body  = 
-zchar[
+Eval vm_compute in ("<<<M1542>>>" ++ check (runes_of_ascii "root packet u {
+    match crc as leftPad {
+        [00] : o,
+        42 : crc,
+        [
+            ""a	b"", ""CRC32"", ""a\""b"", ""\n"", 0,
+            255
+        ] : zchar,
         // " ++ [128512]%N ++ runes_of_ascii " emoji
-	/// triple
-00	//
-  ]	;  } 
-  //
+        //
+    },
+    string stringy @lengthOf(matchKey),
+    int,
+    @tag(1)
+    repeat zchar[4294967296] roots,
+    @leftPad('\x00')
+    x @lengthOf(crc),
+}
 
-MetaData
+packet repeatCount {
+    zchar[255] f32a @calculatedFrom(""x y""),
+    @tag(255)
+    char[] asx @calculatedFrom(""" ++ [28040; 24687]%N ++ runes_of_ascii """),
+    leftPad {
+        /// triple
+        // a // b
+        repeat int u8x,
+        i64 trueish @lengthOf(i8i8) `" ++ [28040; 24687; 31867; 22411]%N ++ runes_of_ascii "`,
+        repeat int64 pack,
+    },
+    match float as o {
+        //
+        65535 : Pad,
+        [""" ++ [128512]%N ++ runes_of_ascii """, """ ++ [28040; 24687]%N ++ runes_of_ascii """, 0123456789] : i8i8,
+        7 : asx,
+        00 : stringy,
+    },
+    @calculatedFrom(""" ++ [233]%N ++ runes_of_ascii "t" ++ [233]%N ++ runes_of_ascii """)
+    f32a u,
+    repeat msg_type `" ++ [233]%N ++ runes_of_ascii "`,
+    repeat zchar[42] crc,
+    uint64 lengthOf,
+    repeat As ``,
+    zchar[007] tag `tab	here`,
+}
 
-    BodyLength{ // trailing space 
+root packet charz {
+    string msg_type,
+    @calculatedFrom("""")
+    repeat string tag `tab	here`,
+    repeat calculatedFrom,
+    repeat Foo,
+    uint64 Foo @lengthOf(packetx),
+    @rightPad()
+    match falsey as calculatedFrom {
+        [0, 10, ""a\""b""] : metadata,
+    },
+    @calculatedFrom(""\" ++ [233]%N ++ runes_of_ascii """)
+    i64 As ``,
+    @lengthOf(rootA)
+    u32 Logon @lengthOf(a1),
+    @calculatedFrom("""")
+    @leftPad(' ')
+    uint16 i8i8 @calculatedFrom(""// no comment""),
+}
 
-}// " ++ [27880; 37322]%N ++ runes_of_ascii "
-    	options 
+root packet uint8x {
+    repeat f32 chars `tab	here`,
+}
+
+MetaData calculatedFrom {
+    //
+    // `tick` ""quote"" 'q'
+    metadata crc,
+}")).
+Eval vm_compute in ("<<<M324>>>" ++ check (runes_of_ascii "MetaData Pad { char[] Packet , f32a i64_
+    `tab	here`
+// c
+// a // b
+,
+} root packet
+    As { @calculatedFrom(""CRC32""	)@calculatedFrom(  ""1""  ) @calculatedFrom( ""// no comment""
+// a // b
+//
+)	As
+As `say ""hi""` , Foo  msg_type , calculatedFrom
+@calculatedFrom( ""\n"" ) , zchar {	zchar[ 7 ] charz // `tick` ""quote"" 'q'
+@calculatedFrom(""x y"" )
+    , Z9_
+    `{ , }` , repeat int { zchar[ 3
+] i8i8
+    @lengthOf( chars )
+,
+match zchar as
+    o {1 : //
+u128	,
+    0
+:
+// trailing space 
+//x
+stringy
+, 42
+: charz""x y"": a1 3 : Header ,
+4294967296 : o } , repeat
+Header `two words`, match u8x  as u8x
 {
-Logon
+[ 10] : pack ,	1 :
+BodyLength
+//
+// " ++ [27880; 37322]%N ++ runes_of_ascii "
+0 : MetaDataX
+,42
+:  calculatedFrom },	} /// triple
+, } , // " ++ [27880; 37322]%N ++ runes_of_ascii "
+}
+// `tick` ""quote"" 'q'
+/// triple
+packet
+    i64_ { }
+    root packet x { Header
+{char[ /// triple
+0 ] _x `// not a comment`
+    ,
+}
+    ,@lengthOf( A
+)uint32 f32a
+@calculatedFrom( ""abc""
+    )
+// `tick` ""quote"" 'q'
+// " ++ [27880; 37322]%N ++ runes_of_ascii "
+,
+repeat i16 trueish `u8 x,` ,@rightPad	( ' ' )@calculatedFrom( ""a\\"" ) float,
+    repeat char[ 7
+]zchar,
+    @tag( 10 ) repeat
+    //	t
+    a1 falsey	`say ""hi""`,
+    @lengthOf(
+len )repeat zchar[	00
+    // `tick` ""quote"" 'q'
+    ] uint8x ,}
+MetaData  metadata {
+u8 body
+, }")).
+Eval vm_compute in ("<<<M1373>>>" ++ check (runes_of_ascii "options { // c1a
+  // c1b
+LittleEndian // c2
+= // c3
+true ;
+    // c5
+StringPrefixLenType = // c7
+u64 ;
+    // c9
+ArrayPrefixLenType = u16 ; // c13a
+  // c13b
+FixedStringPadFromLeft =
+    // c15
+false // c16
+; FixedStringPadChar // c18
+=
+    // c19
+' ' // c20a
+  // c20b
+;
+    // c21
+} packet
+    // c23
+Logon { // c25
+zchar[ // c26a
+  // c26b
+5 // c27a
+  // c27b
+] // c28a
+  // c28b
+Side2 // c29a
+  // c29b
+, // c30
+} root // c32a
+  // c32b
+packet // c33
+Logout // c34
+{ // c35
+repeat i64 Tail
+    // c38
+, // c39
+Logon , // c41
+repeat
+    // c42
+i16 // c43
+OrderId , // c45
+char[] // c46
+venue // c47
+, uint64
+    // c49
+x // c50a
+  // c50b
+,
+    // c51
+repeat // c52
+i16 // c53
+count , u8 // c56
+Flags
+    // c57
+, match Flags
+    // c60
+as
+    // c61
+Body // c62a
+  // c62b
+{ 25
+    // c64
+: Logon
+    // c66
+, // c67a
+  // c67b
+} // c68
+, // c69a
+  // c69b
+u16 Qty @calculatedFrom(
+    // c72
+""CRC32""
+    // c73
+) , // c75a
+  // c75b
+}
+    // c76
+")).
+Eval vm_compute in ("<<<M1370>>>" ++ check (runes_of_ascii "
+options	{FixedStringPadFromLeft
 
-    = u64 
-As
+    = true;
 
+FixedStringPadChar=
+
+'0'	;
+    }
+
+    packet Leg { 
+repeat
+    InSym93  { 
+zchar[3 ] Acct ,string Side2 ,i32 
+Flags  ,  f32
+    Note 
+,
+
+i32
+
+msgKind
+,
+}
+
+    ,f64
+
+    Note 
+, uint16	Px,} packet  Quote
+
+{
+zchar[ 2]  OrderId  ,
+} packet  Ack
+{ repeat  string
+    lastPx
+    , zchar[
+
+4  ]
+    price	, uint32
+	OrderId ,	Quote,
+    int8
+
+Acct
+, }
+packet Fill {repeat
+
+Leg
+    ,	@rightPad(	'0')
+	char[ 
+11
+	] 
+Note  ,
+    f64	Px ,
+    @rightPad
+    (
+
+'\x00' )
+
+char[
+5
+	]
+
+Flags  ,	zchar[  9
+]
+
+    x,
+
+    string msgKind
+
+,
+}
+    root
+    packet  Order
+{
+
+Leg  ,  repeat
+
+Ack
+
+,
+
+@rightPad('\x00'  ) char[  3
+    ]
+Side2 ,
+repeat
+char[1
+	]seqNo 
+,
+	u16	clOrdID 
+,  match
+
+    clOrdID as Body  {	198
+
+:  Leg, 23 
+:	Quote  ,13 : Ack
+    ,
+159	:
+Fill
+,  } , 
+u32 venue @calculatedFrom(	""CRC32"" )
+	,}
+")).
+Eval vm_compute in ("<<<M1795>>>" ++ check (runes_of_ascii "
+
+  // trailing space 
+	options { f32a 
 =
 
-    true  i64_  = '\x00'
-;
+false ;
 
-    }root
+stringy =true;u =
+    ""\" ++ [233]%N ++ runes_of_ascii """
+    ;
+stringy  =  false	; }packet
 
-    packet	asx
-{
+options1  // " ++ [27880; 37322]%N ++ runes_of_ascii "
+  { 
+}
+
+MetaData	packetx
+
+    {f32 uint8x 
+,
+} root
+	packet zchar
+{@tag(  4294967296
+    )
+	@lengthOf(a1 )i8  _x
+`it's`
+
+    , //x
+char[] o ,
+body  , zchar[ 65535  ] msg_type `crlf
+line` ,repeat
+
+    BodyLength
+	{ repeat char[
+    65535 ] stringy,
+    }	,	@calculatedFrom(
+""" ++ [128512]%N ++ runes_of_ascii """)
+@tag(10
+	    // a // b
+  )
+
+    repeat	f32
+
+lengthOf `line1
+line2`,repeat
+	u{uint32 Z9_ ,  //
+repeat  body `
+`
+    , }
+
+,
 
     @tag(
-    // `tick` ""quote"" 'q'
-//	t
-4294967296 )	roots
-@lengthOf(
-A )  ,
-repeat uint8
 
-    u128 ,int32
-    i64_
+    4294967296
+)  i64_	@lengthOf(
 
-,
-	u8  u
-`` 
-,  @lengthOf( 
-    // c
-  // c
-  len ) uint64
-	    //x
-
-  matchKey
-    ,	match	rootA
-
-    as
-
-    stringy {
-    1 :
-
-string_
-,7
-: charz 
-,255 :	u128
-
-, [// trailing space 
-
-	0 ,
-0123456789 ,
-
-    1	,
-    007]
-
-: len  ,10 :trueish
-	}	,
-@rightPad (
-
-    )char[
-    7	]
-    int//
-    @lengthOf(
-x
-    )
-`two words`
-    ,}
-")).
-Eval vm_compute in ("<<<M52>>>" ++ check (runes_of_ascii "  MetaData
-    // " ++ [27880; 37322]%N ++ runes_of_ascii "
-    packetx { zchar[ 7 ] leftPad
-`// not a comment` ,	}	packet i64_{@calculatedFrom(
-"""" )
-// trailing space 
-// c
-@lengthOf(
-x_y_z ) @tag( 00
-)
-repeatCount
-    // packet A { u8 x, }
-    @calculatedFrom(""1"" ), } packet falsey { int16
-_x
-@calculatedFrom(	""it's"") , } // @lengthOf(
-root
-packet matchKey
-    {repeat u32  Pad  `" ++ [233]%N ++ runes_of_ascii "`, zchar[ 7 ]
-    leftPad
-,match chars as lengthOf
-{ 1 :
-o
-    42 : chars
-// trailing space 
-// c
-,
-}//x
-, repeat
-zchar[
-    255]
-a1, matchKey //
-Packet
-    // `tick` ""quote"" 'q'
-    ,
-f32
     tag
-    ,
-// @lengthOf(
+        // packet A { u8 x, }
+) ,
+@lengthOf(	//	t
+
+	float ) 
+@lengthOf(  
+      // " ++ [128512]%N ++ runes_of_ascii " emoji
+	packetx)@calculatedFrom(
+
+    """ ++ [128512]%N ++ runes_of_ascii """) 
+repeat
+	x_y_z
+u  , @tag(
+    65535 
+)
+u8
+A , }//")).
+Eval vm_compute in ("<<<M4>>>" ++ check (runes_of_ascii "packet
+    // " ++ [128512]%N ++ runes_of_ascii " emoji
+    u128
+{ repeat char[
 // trailing space 
-@calculatedFrom(  ""a\""b"" ) @leftPad( ' ' ) @lengthOf(
-T) stringy
-@lengthOf( o) ,packetx  i64_ ,}
-/// triple
-")).
-Eval vm_compute in ("<<<M58>>>" ++ check (runes_of_ascii "packet pack
-// c
 // packet A { u8 x, }
-{u8 a1
-// trailing space 
-/// triple
-`say ""hi""` // packet A { u8 x, }
-, @leftPad (
-'\x00' )  uint8 Logon	`
-` // `tick` ""quote"" 'q'
-,
-char[]lengthOf // " ++ [27880; 37322]%N ++ runes_of_ascii "
-`" ++ [233]%N ++ runes_of_ascii "` ,
-//
-//x
-repeat char[] As,
-    //	t
-    @lengthOf(string_ )  @calculatedFrom(
-""a\\"" )
-    repeat
-    u8x	o	, char string_ @calculatedFrom(
-""a\""b"" )
-`tab	here`
-    , repeat As { char[
-    // packet A { u8 x, }
-    0 ] i64_//	t
-@lengthOf( T)
-`" ++ [233]%N ++ runes_of_ascii "` , char[4294967296	]
-T @calculatedFrom( ""\" ++ [233]%N ++ runes_of_ascii """ )
-, trueish
-, repeat int
-{string Logon @calculatedFrom(	""1"" ) , metadata  ,
-uint32
-Z9_  , // " ++ [27880; 37322]%N ++ runes_of_ascii "
-} , },@tag( 00 ) //	t
-i16  a1 `a\`
-    ,
-    }
-")).
-Eval vm_compute in ("<<<M113>>>" ++ check (runes_of_ascii "options	{
-As
-= // packet A { u8 x, }
-' '}MetaData o{} root packet pack
-{ } packet tag // " ++ [128512]%N ++ runes_of_ascii " emoji
-{ match falsey as
-BodyLength	{ 4294967296
-:
-    lengthOf
+65535 ] float ,
+}
+options  { f32a
+= char[] ; } packet// trailing space 
+_x { @rightPad ('0' ) // packet A { u8 x, }
+@lengthOf(i8i8) @lengthOf(lengthOf
+)  repeat	Z9_//x
+`crlf
+line`, string_ {
+// `tick` ""quote"" 'q'
 // c
-// " ++ [27880; 37322]%N ++ runes_of_ascii "
-,[ ""x y""
-,""a\\""
-    ]
-    : rootA , [
-42 , ""a	b"" ,
-    ""CRC32"" , 65535 ,""abc"" , 007 ]
+zchar[7
+]x_y_z , Header x
+`line1
+line2` ,
+    }, //	t
+@leftPad ( )
+    match float
+as	x_y_z
+{ """ ++ [28040; 24687]%N ++ runes_of_ascii """ : metadata, 007 :
+    A,00 : falsey
+    , 0123456789  : Foo // trailing space 
+,0123456789
 :
-u8x	""x y"" : A ,
-    /// triple
-    65535 :  i64_,
-    0123456789 :
-    Packet }
-    , @lengthOf(  msg_type)	pack msg_type,
-    @tag( 0 )@lengthOf( Packet
-)/// triple
+    zchar
+, } ,@calculatedFrom( ""1"" )
 @tag(
-3 )
-//	t
-// " ++ [128512]%N ++ runes_of_ascii " emoji
-Foo , repeat float64 zchar, @calculatedFrom(
-""a\""b""
-) @lengthOf(A )@lengthOf( roots
-) options1 @lengthOf(
-Z9_ ),char[] T ,  }")).
+/// triple
+/// triple
+0	) char[
+00 ] options1	, } packet Pad{
+u16
+body
+@lengthOf( stringy // c
+), } options { BodyLength ='0'msg_type =""a\""b"" ; }
+
+")).
+Eval vm_compute in ("<<<M87>>>" ++ check (runes_of_ascii "root packet matchKey{ match	Foo as Z9_ {// c
+[ ""x y"" , ""1"" ,
+    007
+, 7 ]: pack,
+""`tick`"" :
+u128 ,""a	b"" :msg_type,[
+//
+//
+00 ,	65535
+] : a1, ""it's"" :Foo
+    , // " ++ [128512]%N ++ runes_of_ascii " emoji
+[ //x
+""""
+] : u, } ,
+} packet calculatedFrom // c
+{msg_type {
+    T @calculatedFrom( ""\n"" ) ,float64 i8i8, As`
+`, u32 rootA @lengthOf(
+// c
+// `tick` ""quote"" 'q'
+float
+) ,}
+, }
+    packet
+    // " ++ [27880; 37322]%N ++ runes_of_ascii "
+    x_y_z
+{@tag( //x
+0 ) i64_
+    // " ++ [27880; 37322]%N ++ runes_of_ascii "
+    @lengthOf(
+    //
+    MetaDataX
+) ,	}packet A { @calculatedFrom( ""a\\"" )@calculatedFrom(""abc"" ) _x
+u	`say ""hi""` ,
+    } options
+    // `tick` ""quote"" 'q'
+    { // trailing space 
+metadata = ""a\\"" ; // a // b
+}")).
+Eval vm_compute in ("<<<M1701>>>" ++ check (runes_of_ascii "options
+
+{
+
+As=	// trailing space 
+    zchar[4294967296 ]
+;
+
+}	//	t
+	packet
+
+len// packet A { u8 x, }
+{	@lengthOf( _x)	match
+    // c
+	  lengthOf as 
+  //
+// `tick` ""quote"" 'q'
+      string_ 	 // c
+    	{  [ 4294967296 ] :i64_  ""a	b"" 
+: o
+
+    ,  },leftPad @calculatedFrom( ""`tick`"") 
+        // trailing space 
+		// `tick` ""quote"" 'q'
+  ,
+    @leftPad(	'\x00'	)repeat
+    charz	/// triple
+    msg_type
+
+, repeat i8
+Foo
+, }
+
+packet  msg_type
+    { 
+
+    //x
+  // @lengthOf(
+@leftPad(
+'0' )  u64  repeatCount
+@calculatedFrom(
+    """ ++ [28040; 24687]%N ++ runes_of_ascii """) 
+,  // packet A { u8 x, }
+} ")).
 Eval vm_compute in ("<<<M40>>>" ++ check (runes_of_ascii "packet stringy
 //	t
 //
@@ -565,209 +573,180 @@ repeat
     char[] Header, @rightPad ( )char[] string_ `a\` ,
     }
 ")).
-Eval vm_compute in ("<<<M307>>>" ++ check (runes_of_ascii "  packet	charz	{
+Eval vm_compute in ("<<<M291>>>" ++ check (runes_of_ascii "root
 // " ++ [27880; 37322]%N ++ runes_of_ascii "
-/// triple
-repeat // c
-string int `" ++ [28040; 24687; 31867; 22411]%N ++ runes_of_ascii "` , @calculatedFrom( ""it's"" ) @tag(
-255 )  f64 // a // b
-asx
-,
-string
-T `doc` ,zchar[
-007 ]tag @lengthOf( //
-Z9_ )`// not a comment` , }
-options{ u= u16; }
-MetaData
-    chars
-    { i16 falsey , f64 pack,
-    char[  1
-    ]
-asx
-`it's`, char[] body ,
-// `tick` ""quote"" 'q'
-//x
-}packet leftPad { @rightPad
-(
 // @lengthOf(
-//x
-)
-repeat Pad float
-    `{ , }`
+packet
+    Packet
+{ string o @calculatedFrom( ""\" ++ [233]%N ++ runes_of_ascii """)
+, @lengthOf( Packet
+    // packet A { u8 x, }
+    ) body @calculatedFrom( // @lengthOf(
+""x y"" )
+`it's` ,
+float64 As @calculatedFrom( ""`tick`""	), char[]	stringy  @calculatedFrom(""" ++ [28040; 24687]%N ++ runes_of_ascii """	) `doc` , @calculatedFrom(""a	b"") match
+float as o{ [ """ ++ [128512]%N ++ runes_of_ascii """
+    ,007]
+    :metadata
 ,
-    }	options {
-    roots= true;  }
+} ,f32a a1 `a\` , }
+MetaData
+repeatCount
+    { packetx i64_ `" ++ [28040; 24687; 31867; 22411]%N ++ runes_of_ascii "` , // " ++ [128512]%N ++ runes_of_ascii " emoji
+zchar[
+3
+] tag ,
+i8i8 int , }
 ")).
-Eval vm_compute in ("<<<M1325>>>" ++ check (runes_of_ascii "
-options{	LittleEndian  =
-	false	;
-StringPrefixLenType 
-=
-u8
-	;
-ArrayPrefixLenType = u64
-; FixedStringPadFromLeft
-=
+Eval vm_compute in ("<<<M1551>>>" ++ check (runes_of_ascii "
 
-false ; 
-FixedStringPadChar = ' ' ;	}
-packet 
-Reject
+  packet  As
 
-    {  repeat
-	char[
+{ 
+@leftPad() 
+char[
+0	]Logon
+,char[
+    0
 
-    4
+]
+	Z9_
+@calculatedFrom(
+	""abc""
+        // c
+    )
+,@tag(
+4294967296
+) i64
+    matchKey @calculatedFrom(
+""// no comment""//
+      )
 
-] seqNo ,
+    `two words` 
+,
 
-string Px ,
+i16
+    A
+,}  // " ++ [27880; 37322]%N ++ runes_of_ascii "
 
+  packet
+
+T
+	{ zchar[3 ] 
+tag	// packet A { u8 x, }
+  @lengthOf(
+chars )  , }packet  // " ++ [128512]%N ++ runes_of_ascii " emoji
+BodyLength
+{
+    calculatedFrom
+    @lengthOf( body
+)
+	`
+`	,} // a // b
+")).
+Eval vm_compute in ("<<<M1800>>>" ++ check (runes_of_ascii "// top
+root packet _x {
+    match Foo as Z9_ {
+        // c8
+        ""a	b"" : Pad,
+        // c12
+    },// c14
+    repeat x `line1
+    line2`,// c18
+    @rightPad(' ')
+    // c22
+    @calculatedFrom(""a\\"")
+    // c25a
+    // c25b
+    metadata MetaDataX,
+    @tag(0)
+    // c31
+    Logon int ``,
+    // c35
+}// c36
+
+options {
+    // c38
+    T = '\x00'
+}// c42a
+// c42b")).
+Eval vm_compute in ("<<<M285>>>" ++ check (runes_of_ascii "packet zchar { @calculatedFrom(
+    ""packet"" )
+    @lengthOf( body ) @lengthOf(A )
+    repeat /// triple
+u128
+    { f32a
+chars `` , repeat x_y_z `tab	here`	, // c
+} , // " ++ [27880; 37322]%N ++ runes_of_ascii "
+repeat
+Logon {// " ++ [27880; 37322]%N ++ runes_of_ascii "
+u@calculatedFrom( // `tick` ""quote"" 'q'
+""// no comment"") //
+`two words` , char
+    u8x , uint32  uint8x  , } , int8
+    asx ``,}
+")).
+Eval vm_compute in ("<<<M232>>>" ++ check (runes_of_ascii "options {  A = i16
+;
+    }
+    /// triple
+    root
+packet
+    rootA{
+    @tag( 7)int16 pack,Logon @calculatedFrom( ""a\""b"" ) `{ , }`
+    , @rightPad ( '\x00' )
+//
+//
+char[
+7
+    // `tick` ""quote"" 'q'
+    ]options1
+`tab	here`,@calculatedFrom(
+""" ++ [233]%N ++ runes_of_ascii "t" ++ [233]%N ++ runes_of_ascii """ )int @lengthOf(
+Packet
+) `crlf
+line`, }
+")).
+Eval vm_compute in ("<<<M1836>>>" ++ check (runes_of_ascii "packet Sub	{u8
+a  ,
+
+    @calculatedFrom(""CRC16""
+
+)
+	i32 SubSum , 
 }
 root
 	packet
-	Trade{
-	@rightPad
-( '0'
+Frame 
+{ u16	MsgType
+
+    , u16 
+BodyLen @lengthOf( Body
+
     )
-char[  2 ] msgKind
+    ,Sub
 
-, repeat
-f64 price	,
-    InAcct79
+Body  ,string
+note ,
+@calculatedFrom( ""CRC16"" )
 
-{
+    i32  Checksum
 
-    repeat
-Reject, zchar[	7	]OrderId , } 
-,
-    Reject  , 
+    , u8
+tail ,
 }
+
 ")).
-Eval vm_compute in ("<<<M235>>>" ++ check (runes_of_ascii "packet crc
-// a // b
-//x
-{	u128
-    packetx , // " ++ [128512]%N ++ runes_of_ascii " emoji
-match roots	as
-    //
-    falsey
-{ 0123456789 // a // b
-: Header ""packet""// a // b
-: // a // b
-Z9_	3 : A ,
-// trailing space 
-// a // b
-""a	b""  : roots 10
-:  _x
-, } , @tag( 255// a // b
-) match
-calculatedFrom  as	o {
-    255 : string_ """ ++ [28040; 24687]%N ++ runes_of_ascii """ : i64_
-,	} , }MetaData
-T
-{ float64 u	,} packet Pad { /// triple
-}
-")).
-Eval vm_compute in ("<<<M1350>>>" ++ check (runes_of_ascii "options {
-
-    LittleEndian=  false
-
-;
-    StringPrefixLenType=  u16	;	} packet
-Heartbeat
-{
-
-@rightPad(
-'0'
-    )  char[ 7]
-    seqNo 
-,
-
-    uint64 
-Tail , i16
-    Flags,
-
-    u16 
-msgKind,
-}  root
-
-    packet
-
-Reject 
-{	zchar[
-
-    3 
-]
-
-tag7 
-,	repeat 
-Heartbeat	,
-
-    repeat string
-    clOrdID
-,
-    } ")).
-Eval vm_compute in ("<<<M32>>>" ++ check (runes_of_ascii "packet int { T/// triple
-{ repeat _x ,	} ,
-    i64_ _x
-    `
-`, @calculatedFrom( ""x y"" )u32 A
-,  match a1 as
-    i8i8 { [ ""1""
-,
-4294967296
-]:
-    a1 ,"""":	a1
-    , 007: a1 , [ ""CRC32"" ] :Header} , int64 As, int8 a1 , //
-char[] float
-`tab	here`/// triple
-,
-repeat zchar[ 1	]u8x,
-} /// triple")).
-Eval vm_compute in ("<<<M1250>>>" ++ check (runes_of_ascii "// top
-packet
-    // c0
-Inner
-    // c1
-{ // c2a
-  // c2b
-u8
-    // c3
-a // c4a
-  // c4b
-, }
-    // c6
-root // c7
-packet // c8
-P // c9a
-  // c9b
-{
-    // c10
-Inner // c11a
-  // c11b
-ref_obj
-    // c12
-, // c13a
-  // c13b
-u8 x ,
-    // c16
-} // c17a
-  // c17b
-")).
-Eval vm_compute in ("<<<M1373>>>" ++ check (runes_of_ascii "packet Sub {
-    u8 a,
-    @calculatedFrom(""CRC16"") i32 SubSum,
-}
-root packet Frame {
-    u16 MsgType,
-    u16 BodyLen @lengthOf(Body),
-    Sub Body,
-    string note,
-    @calculatedFrom(""CRC16"") i32 Checksum,
-    u8 tail,
-}
-")).
+Eval vm_compute in ("<<<M1933>>>" ++ check (runes_of_ascii "root packet string_ {
+    @leftPad(' ')
+    chars {
+        repeat zchar[0] tag,
+        string falsey,// " ++ [128512]%N ++ runes_of_ascii " emoji
+        repeat char[007] body `two words`,
+    },
+    @calculatedFrom(""// no comment"")
+    Foo T,// " ++ [128512]%N ++ runes_of_ascii " emoji
+}")).
 Eval vm_compute in ("<<<M26>>>" ++ check (runes_of_ascii "root packet body { repeat // c
 i8i8
 `it's`
@@ -784,70 +763,38 @@ packet chars
     ,
 }
 ")).
-Eval vm_compute in ("<<<M1301>>>" ++ check (runes_of_ascii "
-
-  packet A
-{u8 a
-
-    ,
-	} packet 
-B { u16
-
-    b , }root packet P
-
-    {u8 K
-    , match
-    K as M
-	{ [ 1
-,
-	2 ]: 
-A
-
-    ,
-
-3 :B
-    ,	7
-    : A,
-	}
-	,  }
-
-")).
-Eval vm_compute in ("<<<M1613>>>" ++ check (runes_of_ascii "
-packet  i64_
-
-    {}MetaData
-uint8x
-    {Packet 
-tag
-	,
-
-u8  repeatCount
-
-,  x_y_z	_x
-
-`" ++ [233]%N ++ runes_of_ascii "`
-	,
-
-    zchar[
-
-    42]	crc `a\`
-
-    ,	} 
-options
-	{
-
-}
-")).
-Eval vm_compute in ("<<<M1889>>>" ++ check (runes_of_ascii "packet A {
-    Inner {
-        match k as n {
-            [
-                1, 22, 007, 4, 5,
-                66, 7
-            ] : B,
-        },
+Eval vm_compute in ("<<<M1454>>>" ++ check (runes_of_ascii "packet A {
+    match k as n {
+        [
+            ""a"", ""bb"", 007, ""d"", ""e"",
+            66, ""g"", ""h"", 9, ""j"",
+            ""k"", 12
+        ] : B,
+        2 : C,
     },
 }")).
+Eval vm_compute in ("<<<M491>>>" ++ check (runes_of_ascii "packet uint8x
+{ match pack
+    as msg_type	{
+    0123456789 :	float
+}
+,
+} packet //	t
+a1
+    { } options {packetx packetx
+    = '\x00'	; u128= ""a	b""  ; }
+")).
+Eval vm_compute in ("<<<M413>>>" ++ check (runes_of_ascii "packet uint8x
+{ match float32
+    as msg_type	{
+    0123456789 :	float
+}
+,
+} packet //	t
+a1
+    { } options {packetx
+    = '\x00'	; u128= ""a	b""  ; }
+")).
 Eval vm_compute in ("<<<M548>>>" ++ check (runes_of_ascii "packet uint8x
 { match pack
     as msg_type	{
@@ -859,18 +806,18 @@ a1
     { } options {packetx
     ''= '\x00'	; u128= ""a	b""  ; }
 ")).
-Eval vm_compute in ("<<<M448>>>" ++ check (runes_of_ascii "packet uint8x
+Eval vm_compute in ("<<<M452>>>" ++ check (runes_of_ascii "packet uint8x
 { match pack
     as msg_type	{
     0123456789 :	float
-=
-,
-} packet //	t
+}
+}
+, packet //	t
 a1
     { } options {packetx
     = '\x00'	; u128= ""a	b""  ; }
 ")).
-Eval vm_compute in ("<<<M483>>>" ++ check (runes_of_ascii "packet uint8x
+Eval vm_compute in ("<<<M485>>>" ++ check (runes_of_ascii "packet uint8x
 { match pack
     as msg_type	{
     0123456789 :	float
@@ -878,34 +825,49 @@ Eval vm_compute in ("<<<M483>>>" ++ check (runes_of_ascii "packet uint8x
 ,
 } packet //	t
 a1
-    { } '\x00' {packetx
+    { } options packetx
     = '\x00'	; u128= ""a	b""  ; }
 ")).
-Eval vm_compute in ("<<<M703>>>" ++ check (runes_of_ascii "// @lengthOf(
-packet i8i8 { u128 o , }
-options '1'{ MetaDataX = true;
-    BodyLength =""packet"" x_y_z= 007
-crc //x
-= ""abc"" ;
-    msg_type =
-i16 }")).
-Eval vm_compute in ("<<<M1530>>>" ++ check (runes_of_ascii "packet A {
+Eval vm_compute in ("<<<M1508>>>" ++ check (runes_of_ascii "packet A {
     match k as n {
         [
-            1, 007, 5, 7, 9,
-            ""bb"", ""d"", ""f"", ""h"", ""j""
+            ""a"", 22, ""c c"", 4, ""e"",
+            66, ""g"", 8, ""i"", 10
         ] : B,
         2 : C,
     },
 }")).
-Eval vm_compute in ("<<<M710>>>" ++ check (runes_of_ascii "// @lengthOf(
-packet i8i8 { u128 o , }
-options { MetaDataX = true;
-    BodyLength =""packet"" x_y_z= 007
-crc //x
-= ""abc"" ;
-    msg_type 
-i16 }")).
+Eval vm_compute in ("<<<M1748>>>" ++ check (runes_of_ascii "  packet B {
+u8
+	a , }
+
+    root  packet P
+{
+    u8
+K
+
+,
+u64 L
+
+    @lengthOf(
+Body) 
+,  match K as
+
+    Body 
+{  1 
+:B
+,
+    }	,
+    } ")).
+Eval vm_compute in ("<<<M1523>>>" ++ check (runes_of_ascii "packet A {
+    match k as n {
+        [
+            1, 22, ""c c"", 4, 5,
+            ""f"", 7, 8, ""i"", 10
+        ] : B,
+        2 : C,
+    },
+}")).
 Eval vm_compute in ("<<<M659>>>" ++ check (runes_of_ascii "// @lengthOf(
 packet i8i8 { u128 o , }
 options { MetaDataX = true;
@@ -914,202 +876,206 @@ crc //x
 = ""abc"" ;
     msg_type =
 i16 }")).
-Eval vm_compute in ("<<<M1780>>>" ++ check (runes_of_ascii "MetaData leftPad {
-    string u128 `say ""hi""`,
-    A packetx,
-    char[42] leftPad `tab	here`,
-    i16 crc,
-    string uint8x,
-}")).
-Eval vm_compute in ("<<<M1645>>>" ++ check (runes_of_ascii "root packet string_ {
-    repeat char[00] rootA,
+Eval vm_compute in ("<<<M509>>>" ++ check (runes_of_ascii "packet uint8x
+{ match pack
+    as msg_type	{
+    0123456789 :	float
 }
-
-MetaData u {
-    i32 options1,
-}
-
-MetaData rootA {
-    u16 chars,
+,
+} packet //	t
+a1
+    { } options {packetx
+    = '\x00'")).
+Eval vm_compute in ("<<<M173>>>" ++ check (runes_of_ascii "
+options
+    { zchar
+    = 10 ; matchKey = char[ /// triple
+1
+    ]
+u	= ""a\""b"" ;
+    x_y_z =
+    42 ; } MetaData Logon{ }")).
+Eval vm_compute in ("<<<M1159>>>" ++ check (runes_of_ascii "MetaData leftPad { chars MetaDataX , } packet repeatCount // c
+{ char[ 255 ] uint8x `" ++ [233]%N ++ runes_of_ascii "` , } MetaData pack { As Foo , }")).
+Eval vm_compute in ("<<<M1838>>>" ++ check (runes_of_ascii "packet A {
+    u16 len @lengthOf(body) `a
+    b`,
+    u32 crc @calculatedFrom(""CRC32"") `a
+    b`,
+    string body,
 }")).
-Eval vm_compute in ("<<<M1171>>>" ++ check (runes_of_ascii "MetaData leftPad { chars MetaDataX , } packet repeatCount { char[ 255 ] uint8x `" ++ [233]%N ++ runes_of_ascii "` // c
-, } MetaData pack { As Foo , }")).
-Eval vm_compute in ("<<<M967>>>" ++ check (runes_of_ascii "packet A {
-    match k as n {
-        ""x\
-y"" : B,
-        [""x\
-y"", 1] : C,
-        [1,2,3,4,5,""x\
-y""] : D,
-    },
-}")).
-Eval vm_compute in ("<<<M919>>>" ++ check (runes_of_ascii "packet A {
+Eval vm_compute in ("<<<M925>>>" ++ check (runes_of_ascii "packet A {
     u16 len @lengthOf(body) `a
 b`,
     u32 crc @calculatedFrom(""CRC32"") `a
 b`,
     string body,
 }")).
-Eval vm_compute in ("<<<M912>>>" ++ check (runes_of_ascii "packet A {
-  match k as n {
-    [1, 22, ""c c"", 4, 5, ""f"", 7, 8, ""i"", 10, 11, ""l""] : B,
-    2 : C
-  },
-}")).
-Eval vm_compute in ("<<<M1914>>>" ++ check (runes_of_ascii "packet	A
-    {
-
-match  k
-
-    as n
-
-{
-
-    [
-
-    ""a""
-	,  22
-]
-
-    :
-B  , 2
-:  C } ,
-}
-")).
-Eval vm_compute in ("<<<M600>>>" ++ check (runes_of_ascii "
+Eval vm_compute in ("<<<M1473>>>" ++ check (runes_of_ascii "
 packet
-    asx {match u128 as lengthOf
-{
-//	t
-// `tick` ""quote"" 'q'
-255 packet x ,
-    } ,	}")).
-Eval vm_compute in ("<<<M560>>>" ++ check (runes_of_ascii "
-packet
-    false {match u128 as lengthOf
-{
-//	t
-// `tick` ""quote"" 'q'
-255 : x ,
-    } ,	}")).
-Eval vm_compute in ("<<<M555>>>" ++ check (runes_of_ascii "
-asx
-    packet {match u128 as lengthOf
-{
-//	t
-// `tick` ""quote"" 'q'
-255 : x ,
-    } ,	}")).
-Eval vm_compute in ("<<<M879>>>" ++ check (runes_of_ascii "packet A {
-  match k as n {
-    [1, 22, 007, 4, 5, 66, 7, 8, 9, 10] : B
-    2 : C
-  },
-}")).
-Eval vm_compute in ("<<<M1649>>>" ++ check (runes_of_ascii "
-packet
-	A
-
-{match  k as n
-    {	[
-1
-	,
-	""bb""
-,
-    007 ,""d"" ]: B 
-2	: C}
-	,
-    }
-")).
-Eval vm_compute in ("<<<M830>>>" ++ check (runes_of_ascii "packet A {
-  match k as n {
-    [1, ""bb"", 007, ""d"", 5, ""f""] : B,
-    2 : C
-  },
-}")).
-Eval vm_compute in ("<<<M802>>>" ++ check (runes_of_ascii "packet A {
-  match k as n {
-    [""a"", ""bb"", ""c c"", ""d""] : B,
-    2 : C
-  },
-}")).
-Eval vm_compute in ("<<<M601>>>" ++ check (runes_of_ascii "
-packet
-    asx {match u128 as lengthOf
-{
-//	t
-// `tick` ""quote"" 'q'
-255")).
-Eval vm_compute in ("<<<M1431>>>" ++ check (runes_of_ascii "// top
-packet body {
-    i32 f32a `{ , }`,
-}
-
-// c7
-options {
-}// c10a")).
-Eval vm_compute in ("<<<M788>>>" ++ check (runes_of_ascii "packet A {
-  match k as n {
-    [1, 22, 007] : B
-    2 : C
-  },
-}")).
-Eval vm_compute in ("<<<M825>>>" ++ check (runes_of_ascii "packet A { Inner { match k as n { [1,22,007,4,5] : B, }, }, }")).
-Eval vm_compute in ("<<<M774>>>" ++ check (runes_of_ascii "packet A {
-  match k as n {
-    [1] : B
-    2 : C
-  },
-}")).
-Eval vm_compute in ("<<<M1205>>>" ++ check (runes_of_ascii "packet body { i32 // c
-f32a `{ , }` , } options { }")).
-Eval vm_compute in ("<<<M347>>>" ++ check (runes_of_ascii "packet As{
-/// triple
-// packet A { u8 x, }
-}
-
-")).
-Eval vm_compute in ("<<<M1456>>>" ++ check (runes_of_ascii "  root
-    packet  A{
+FooBar{ 
 u8
-	x
-`a
-b`  , }
+a ,}
+	packet
 
-")).
-Eval vm_compute in ("<<<M1650>>>" ++ check (runes_of_ascii "
+foo_bar
+    { 
+u16
+
+b
+
+,}
 root
+
+packet  R { FooBar
+
+, foo_bar  ,  }
+")).
+Eval vm_compute in ("<<<M884>>>" ++ check (runes_of_ascii "packet A {
+  match k as n {
+    [""a"", 22, ""c c"", 4, ""e"", 66, ""g"", 8, ""i"", 10] : B,
+    2 : C
+  },
+}")).
+Eval vm_compute in ("<<<M1740>>>" ++ check (runes_of_ascii "packet B {
+    u8 a,
+    string s,
+}
+
+root packet P {
+    u16 L @lengthOf(B),
+    B,
+    u8 t,
+}")).
+Eval vm_compute in ("<<<M717>>>" ++ check (runes_of_ascii "// @lengthOf(
+packet i8i8 { u128 o , }
+options { MetaDataX = true;
+    BodyLength =""packet"" ")).
+Eval vm_compute in ("<<<M640>>>" ++ check (runes_of_ascii "
+packet
+    asx {match u128 as lengthOf
+{
+//	t
+// `tick` ""quote"" 'q'
+$255 : x ,
+    } ,	}")).
+Eval vm_compute in ("<<<M602>>>" ++ check (runes_of_ascii "
+packet
+    asx {match u128 as lengthOf
+{
+//	t
+// `tick` ""quote"" 'q'
+255 :  ,
+    } ,	}")).
+Eval vm_compute in ("<<<M865>>>" ++ check (runes_of_ascii "packet A {
+  match k as n {
+    [1, 22, 007, 4, 5, 66, 7, 8, 9] : B,
+    2 : C
+  },
+}")).
+Eval vm_compute in ("<<<M690>>>" ++ check (runes_of_ascii "// @lengthOf(
+packet i8i8 { u128 o , }
+options { MetaDataX = true;
+    BodyLength")).
+Eval vm_compute in ("<<<M1951>>>" ++ check (runes_of_ascii "  packet  A
+	{match
+	k  as n 
+{
+[ 1
+    ,
+22  ] :  B
+    2
+
+: C
+
+    }
+
+,}
+")).
+Eval vm_compute in ("<<<M804>>>" ++ check (runes_of_ascii "packet A {
+  match k as n {
+    [1, ""bb"", 007, ""d""] : B,
+    2 : C
+  },
+}")).
+Eval vm_compute in ("<<<M794>>>" ++ check (runes_of_ascii "packet A {
+  match k as n {
+    [""a"", 22, ""c c""] : B
+    2 : C
+  },
+}")).
+Eval vm_compute in ("<<<M1492>>>" ++ check (runes_of_ascii "root packet P {
+    u8 s_u8,
+    repeat u8 r_u8,
+    u16 b_len,
+}")).
+Eval vm_compute in ("<<<M954>>>" ++ check (runes_of_ascii "packet A {
+    B b `
+x`,
+    B `
+x`,
+    repeat B bs `
+x`,
+}")).
+Eval vm_compute in ("<<<M760>>>" ++ check (runes_of_ascii "MetaData @rightPad 3 i32 int32 ; int8 body ""a	b"" `" ++ [28040; 24687; 31867; 22411]%N ++ runes_of_ascii "`")).
+Eval vm_compute in ("<<<M1204>>>" ++ check (runes_of_ascii "packet body {
+// c
+i32 f32a `{ , }` , } options { }")).
+Eval vm_compute in ("<<<M251>>>" ++ check (runes_of_ascii "
+root packet
+chars
+{
+    i16 leftPad
+    , }
+")).
+Eval vm_compute in ("<<<M1584>>>" ++ check (runes_of_ascii "
+
+  root  packet A
+{
+u8
+
+    x `a
+b`
+
+,} ")).
+Eval vm_compute in ("<<<M1722>>>" ++ check (runes_of_ascii "
+MetaData
+repeatCount  {	} 
+
+    //	t
+")).
+Eval vm_compute in ("<<<M928>>>" ++ check (runes_of_ascii "root packet A {
+    u8 x `a
+b`,
+}")).
+Eval vm_compute in ("<<<M1640>>>" ++ check (runes_of_ascii "options {
+    u8x = ""packet"";
+}")).
+Eval vm_compute in ("<<<M1511>>>" ++ check (runes_of_ascii "
+
+  packet A{ }
+        // c" ++ [160]%N)).
+Eval vm_compute in ("<<<M1460>>>" ++ check (runes_of_ascii "  // c
 packet
 
-    msg_type 
-{	}
+x
+{
+} ")).
+Eval vm_compute in ("<<<M1109>>>" ++ check (runes_of_ascii "MetaData tag { // c
+}")).
+Eval vm_compute in ("<<<M1135>>>" ++ check (runes_of_ascii "MetaData u {
+// c
+}")).
+Eval vm_compute in ("<<<M1032>>>" ++ check (runes_of_ascii "// c" ++ [11]%N ++ runes_of_ascii "
+packet A {
+}")).
+Eval vm_compute in ("<<<M1024>>>" ++ check (runes_of_ascii "packet A {
+}// c" ++ [8287]%N)).
+Eval vm_compute in ("<<<M1072>>>" ++ check (runes_of_ascii "
+
+  packet A {}")).
+Eval vm_compute in ("<<<M84>>>" ++ check (runes_of_ascii " // " ++ [27880; 37322]%N)).
+Eval vm_compute in ("<<<M733>>>" ++ check (runes_of_ascii "
+
 
 ")).
-Eval vm_compute in ("<<<M952>>>" ++ check (runes_of_ascii "root packet A {
-    u8 x `x
-`,
-}")).
-Eval vm_compute in ("<<<M1018>>>" ++ check (runes_of_ascii "packet A {
- u8 x `d" ++ [8233]%N ++ runes_of_ascii "`, // c" ++ [8233]%N ++ runes_of_ascii "
-}")).
-Eval vm_compute in ("<<<M929>>>" ++ check (runes_of_ascii "packet A {
-    u8 x `
-`,
-}")).
-Eval vm_compute in ("<<<M1112>>>" ++ check (runes_of_ascii "MetaData tag { }
-// c
-")).
-Eval vm_compute in ("<<<M1137>>>" ++ check (runes_of_ascii "MetaData u { }
-// c
-")).
-Eval vm_compute in ("<<<M996>>>" ++ check (runes_of_ascii "packet A {
-}
-// c" ++ [5760]%N)).
-Eval vm_compute in ("<<<M1802>>>" ++ check (runes_of_ascii "MetaData roots {
-}")).
-Eval vm_compute in ("<<<M310>>>" ++ check (runes_of_ascii "
-MetaData A {}
-")).
-Eval vm_compute in ("<<<M255>>>" ++ check (runes_of_ascii " /// triple")).
-Eval vm_compute in ("<<<M1050>>>" ++ check (runes_of_ascii "// c" ++ [65279]%N)).
